@@ -572,6 +572,9 @@ def run(ck: Check):
     ck.assumptions.append("lxml (Element, set, text/tail, tostring), CPython's utf-8 / utf-16-le decoders with errors='replace', re and "
                           "str methods are modelled, not verified; float / dimension / fraction renderings are abstract here (C27)")
     ck.notes.append("model describes the tree with fixes/C26-text-chunks.diff and fixes/C26-utf16-bom.diff applied")
+    ck.notes.append("attribute value strings are proved against Spec/AxmlTree.lean (imports nothing): attr_value_spec, axml_roundtrip_spec "
+                    "(documents without duplicate attributes); with duplicate attributes the expected tree of axml_roundtrip uses the code's own "
+                    "overwrite policy; non-ASCII names, re-bound prefixes, comments and styles are outside the proved domain (tie only)")
 
 
 def replay(ck: Check, rp):
